@@ -25,6 +25,21 @@ judges the result against the snapshot, so a routine that writes into the caller
   C configuration       config.precision = 32 with float32 and float64 data (float32 tolerances), then the same routines on
                         the same grids under precision 64 at full tolerance (keys carry /precision=32, /after-precision-32)
   D regimes             1xN, Nx1, 2xN, Nx3 arrays up to N = 256 (quick) / 1024 (thorough)
+
+Hardening pass 2 (HARDENING2.md).
+  E argument forms      every form of an argument that the current tree accepts as the same mathematical input must give the
+                        result of the canonical form (tables *_FORMS below; established by running the current tree, see
+                        FORMS_NOTE): callable transfer functions declaring any ordered subset of fx, fy, fr, ft (64
+                        signatures) as def / lambda / functools.partial (keyword- and position-curried) / callable object /
+                        bound method, asymmetric in their arguments, both shift conventions, grids from dx / explicit 1-D /
+                        row+column / meshgrid / read-only broadcast views / float32; object x PSF dtype kinds of conv (all 64
+                        ordered pairs of bool, uint8, uint16, int16, int32, int64, float32, float64), object x
+                        transfer-function dtype kinds, PSF dtype kinds of mtf/otf/ptf in array and RichData form; dx as python
+                        float / int, numpy float64 / float32 / int64 scalars and 0-d arrays; keyword vs positional, omitted vs
+                        explicit default (also after a call that passed the other value); tfs as list / tuple
+  F foreign traffic     before part of the callable workload the other public consumers of forward_ft_unit, make_xy_grid,
+                        optimize_xy_separable and cart_to_polar run with hostile arguments (shift on/off, precision 32,
+                        returned grids edited in place), then apply_transfer_functions is judged on the same (dx, n)
 """
 import functools
 import math
@@ -44,7 +59,13 @@ RULE = ('shapes enumerated smallest first (all (n0,n1) up to a bound incl. 1xN, 
         '(shape, classes, sub-seed).  Hardening workloads: repeat (same argument objects again, x 5 memory layouts x 7 image '
         'dtypes x 2 transfer-function containers x 5 transfer-function dtypes), histories (PSF container: 8 kinds of change x 9 '
         'ordered routine pairs per shape, random sequences; conv: 5 kinds; apply_transfer_functions: dx/shift/grid sequences on '
-        'one shape), configuration (precision 32 with float32/float64 data, then 64 on the same grids), extreme aspect ratios')
+        'one shape), configuration (precision 32 with float32/float64 data, then 64 on the same grids), extreme aspect ratios.  '
+        'Argument forms (hardening pass 2): 64 callable signatures (every ordered subset of fx, fy, fr, ft) x 6 python forms (def, '
+        'lambda, partial by keyword / by position, callable object, bound method) x 2 shift conventions x 3 grid modes, each an '
+        'asymmetric function of its arguments judged against the array it evaluates to by parameter name; 64 ordered dtype pairs '
+        'of conv operands (small and full-range integers), 8 object dtypes x 8 transfer-function kinds, 8 PSF dtypes x array / '
+        'RichData; 8 dx forms, 8 explicit-grid forms, keyword / positional / omitted-default call syntax, 3 tfs containers; '
+        'foreign-traffic preludes (3 kinds) before part of the callable workload')
 ASSUMPTIONS = ['origin sample of an axis of length n is index n//2 (C04 convention); the routines are FFT based so '
                'circular (roll) shifts are the exact model',
                'documented frequency grid of apply_transfer_functions: zero frequency at the centre sample (n//2) for '
@@ -58,13 +79,22 @@ ASSUMPTIONS = ['origin sample of an axis of length n is index n//2 (C04 conventi
                'second call with the same objects must reproduce the first and a used container must behave like a fresh one '
                'holding the same data; the contracts judge against a copy of the arguments taken before the call',
                'integer and boolean images are in the domain (the FFT promotes them); a PSF whose sum is zero after an integer '
-               'cast has no MTF and is excluded and counted']
+               'cast has no MTF and is excluded and counted',
+               'argument forms (FORMS_NOTE): a form is demanded only when the current tree returns, for it, the result of the canonical '
+               'form; callables are plain functions of positional-or-keyword parameters named by a subset of fx, fy, fr, ft in any order '
+               '(the documentation names the parameters, not their order); a float32 dx or explicit grid is single-precision input (2e-4); '
+               'integer images span the whole range of their dtype in half of the dtype cases (int64 below 2**40 so that the float64 copy '
+               'of the oracle is exact)',
+               'an array a helper returned (forward_ft_unit, make_xy_grid, cart_to_polar, optimize_xy_separable) belongs to the caller: '
+               'editing it in place must not change later results of the routines of this property']
 REQUIRED = ['conv.model', 'conv.linearity', 'conv.commutativity', 'conv.impulse-identity', 'conv.impulse-translation',
             'conv.energy', 'atf.model', 'atf.list-vs-product', 'atf.ones-identity', 'atf.linear-phase',
             'atf.callable-vs-array', 'mtf.dc', 'mtf.max', 'mtf.point-symmetry', 'otf.abs-vs-mtf', 'otf.arg-vs-ptf',
             'otf.model', 'repeat.cases', 'repeat.same-args', 'repeat.cross-routine', 'cross.conv-vs-atf-otf',
             'otf.container-vs-array', 'history.otf-container', 'history.otf-array', 'history.conv', 'history.atf',
-            'precision32.cases', 'precision32-then-64.cases', 'regime.aspect']
+            'precision32.cases', 'precision32-then-64.cases', 'regime.aspect',
+            'form.callable-signature', 'form.conv-dtype', 'form.atf-dtype', 'form.otf-dtype', 'form.dx', 'form.grid',
+            'form.call-syntax', 'foreign.cases']
 
 CTX = None
 WL = {}          # label of the workload that is driving the contracts right now (goes into contract witnesses)
@@ -257,7 +287,7 @@ def post_atf(token, args, kwargs, result):
     of = o.astype(float)
     want = ref.filter_image(of, tf, shift).real
     scale = max(float(np.abs(want).max()), float(np.abs(of).max()) * 1e-3, 1e-300)
-    rt = rtol_for(o, *[t for t in tfs if not callable(t)])
+    rt = rtol_for(o, dx, ufx, ufy, *[t for t in tfs if not callable(t)])     # a float32 dx / grid is a single-precision input
     CTX.observe('atf.model')
     got = np.asarray(result)
     if got.shape != o.shape:
@@ -556,6 +586,8 @@ def run(ctx):
         _run_repeat(ctx)
         _run_histories(ctx)
         _run_regimes(ctx)
+        _run_forms(ctx)
+        _run_foreign(ctx)
         _run_rejections(ctx)
         _run_internal(ctx)
     finally:
@@ -1386,6 +1418,566 @@ def _run_regimes(ctx):
             with ctx.guard(f'C15/otf/{par2(shape)}', desc):
                 for ci, cls in enumerate(classes):
                     _otf_laws(ctx, otf, r, shape, cls, ['array', 'RichData'][ci % 2], 1.3, desc)
+
+
+# ------------------------------------------------------------------------------------------- class E: argument forms
+FORMS_NOTE = ('accepted forms established by running the current tree (/repo @ faa8443) with every candidate form: a form is in '
+              'the tables below when the call returns and equals the canonical form; forms the tree rejects (explicit fx, fy as '
+              'lists, a 1-element array for dx, list objects for apply_transfer_functions / mtf_from_psf) or silently treats as '
+              'something else (generators / iterators for tfs: consumed by the any(callable) scan) are out of domain.  '
+              'Callables: positional-or-keyword parameters without defaults named by any ordered subset of fx, fy, fr, ft '
+              '(keyword-only parameters, defaults and **kwargs are not demanded)')
+GRID_NAMES = ('fx', 'fy', 'fr', 'ft')
+CALLABLE_KINDS = ['def', 'lambda', 'partial-keyword', 'partial-positional', 'callable-object', 'bound-method']
+DT_ALL = ['bool', 'uint8', 'uint16', 'int16', 'int32', 'int64', 'float32', 'float64']
+DX_FORMS = ['python-float', 'python-int', 'numpy-float64', 'numpy-float32', 'numpy-int64', '0d-float64', '0d-float32', '0d-int64']
+GRID_FORMS = ['1d', 'row+column', 'meshgrid', 'meshgrid-F-order', 'broadcast-view-readonly', '1d-float32', 'meshgrid-float32',
+              '1d-strided-view']
+TFS_CONTAINERS = ['list', 'tuple']          # the documented type is 'sequence'; views / generators / 3-D stacks are not demanded
+
+
+def cast_full(x, dt):
+    """Like cast_img, but integer images span the whole range of their dtype (detector counts near saturation): a routine
+    that narrows or truncates an integer operand is only exposed by such values.  int64 stays below 2**40 so that the
+    float64 copy used by the oracle is exact."""
+    if dt.startswith('float') or dt == 'bool':
+        return cast_img(x, dt)
+    top = float(np.abs(x).max()) or 1.0
+    hi = min(float(np.iinfo(dt).max), 2.0 ** 40)
+    if dt.startswith('uint'):
+        return np.round(np.abs(x) / top * hi).astype(dt)
+    return np.round(x / top * hi).astype(dt)
+
+
+def signatures():
+    """Every ordered non-empty subset of (fx, fy, fr, ft): 4 + 12 + 24 + 24 = 64 parameter lists."""
+    import itertools
+    out = []
+    for k in range(1, 5):
+        out += list(itertools.permutations(GRID_NAMES, k))
+    return out
+
+
+def order_class(ps):
+    canon = tuple(n for n in GRID_NAMES if n in ps)
+    return 'canonical-order' if tuple(ps) == canon else 'permuted-order'
+
+
+def dkind(dt):
+    dt = str(dt)
+    return 'bool' if dt == 'bool' else 'uint' if dt.startswith('uint') else 'int' if dt.startswith('int') else dt
+
+
+def asym_functions(r, dx):
+    """One real, even, *different* function per grid name (so that a grid handed to the wrong parameter changes the
+    transfer function), times a linear phase in fx and fy (translation by different amounts along the two axes)."""
+    a = {n: float(r.uniform(0.8, 1.6)) for n in GRID_NAMES}
+    sx, sy = int(r.integers(1, 3)), -int(r.integers(2, 4))
+    return {
+        'fx': lambda v: np.exp(-(a['fx'] * dx * v) ** 2) * np.exp(-2j * np.pi * dx * sx * v),
+        'fy': lambda v: np.exp(-2j * np.pi * dx * sy * v) / (1.0 + (2.5 * a['fy'] * dx * v) ** 2),
+        'fr': lambda v: np.exp(-a['fr'] * dx * np.abs(v)),
+        'ft': lambda v: 1.0 + 0.4 * np.cos(2 * v) + 0.15 * np.cos(4 * v + 0.0),
+    }
+
+
+def make_callable(kind, ps, G):
+    """A transfer function with parameter list `ps` (in that order) of the requested python form, and the constant it
+    was curried with.  Built from source so that inspect.signature shows exactly `ps`."""
+    args = ', '.join(ps)
+    body = ' * '.join(f"G['{p}']({p})" for p in ps)
+    ns = {'G': G, 'np': np}
+    if kind == 'def':
+        exec(f'def tf({args}):\n    return {body}\n', ns)
+        return ns['tf'], 1.0
+    if kind == 'lambda':
+        return eval(f'lambda {args}: {body}', ns), 1.0
+    if kind == 'partial-keyword':
+        exec(f'def tf({args}, gain):\n    return gain * ({body})\n', ns)
+        return functools.partial(ns['tf'], gain=0.5), 0.5
+    if kind == 'partial-positional':
+        exec(f'def tf(gain, {args}):\n    return gain * ({body})\n', ns)
+        return functools.partial(ns['tf'], 0.25), 0.25
+    if kind == 'callable-object':
+        exec(f'class TF:\n    gain = 2.0\n    def __call__(self, {args}):\n        return self.gain * ({body})\n', ns)
+        return ns['TF'](), 2.0
+    if kind == 'bound-method':
+        exec(f'class TF:\n    gain = 1.5\n    def evaluate(self, {args}):\n        return self.gain * ({body})\n', ns)
+        return ns['TF']().evaluate, 1.5
+    raise ValueError(kind)
+
+
+def array_of(ps, G, gain, shape, dx, shift):
+    """The array the callable stands for: its factors evaluated *by name* on the documented grid."""
+    fx, fy = doc_grids(shape, dx, shift)
+    FX, FY = fx.reshape(1, -1), fy.reshape(-1, 1)
+    env = {'fx': FX, 'fy': FY, 'fr': np.hypot(FX, FY), 'ft': np.arctan2(FY, FX) + np.zeros(shape)}
+    out = np.full(shape, gain, dtype=complex)
+    for p in ps:
+        out = out * G[p](env[p])
+    return out
+
+
+def grid_form(form, shape, dx, shift):
+    fx, fy = doc_grids(shape, dx, shift)
+    if form == '1d':
+        return fx.copy(), fy.copy()
+    if form == 'row+column':
+        return fx.reshape(1, -1).copy(), fy.reshape(-1, 1).copy()
+    if form == 'meshgrid':
+        FX, FY = np.meshgrid(fx, fy)
+        return FX, FY
+    if form == 'meshgrid-F-order':
+        FX, FY = np.meshgrid(fx, fy)
+        return np.asfortranarray(FX), np.asfortranarray(FY)
+    if form == 'broadcast-view-readonly':
+        return np.broadcast_to(fx.reshape(1, -1), shape), np.broadcast_to(fy.reshape(-1, 1), shape)
+    if form == '1d-float32':
+        return fx.astype(np.float32), fy.astype(np.float32)
+    if form == 'meshgrid-float32':
+        FX, FY = np.meshgrid(fx.astype(np.float32), fy.astype(np.float32))
+        return FX, FY
+    if form == '1d-strided-view':
+        bx, by = np.zeros(fx.size * 2), np.zeros(fy.size * 3)
+        bx[::2], by[1::3] = fx, fy
+        return bx[::2], by[1::3]
+    raise ValueError(form)
+
+
+def dx_form(form, dx):
+    if form == 'python-float':
+        return float(dx)
+    if form == 'python-int':
+        return int(dx)
+    if form == 'numpy-float64':
+        return np.float64(dx)
+    if form == 'numpy-float32':
+        return np.float32(dx)
+    if form == 'numpy-int64':
+        return np.int64(dx)
+    if form == '0d-float64':
+        return np.array(float(dx))
+    if form == '0d-float32':
+        return np.array(dx, dtype=np.float32)
+    if form == '0d-int64':
+        return np.array(int(dx))
+    raise ValueError(form)
+
+
+FORM_SHAPES = [(5, 8), (8, 5), (7, 7), (6, 6), (4, 9), (9, 4), (1, 6), (6, 1), (12, 12), (11, 16)]
+
+
+def _run_forms(ctx):
+    from prysm import otf
+    from prysm._richdata import RichData
+    from prysm.convolution import apply_transfer_functions as atf, conv
+    rng = ctx.rng('c15-forms')
+    shapes = list(FORM_SHAPES)
+    for _ in range(ctx.pick(0, 40)):
+        shapes.append((int(rng.integers(2, 41)), int(rng.integers(2, 41))))
+    sigs = signatures()
+    k = -1
+    with driving(ctx, wl='forms'):
+        # ---- E1: callable forms.  quick: every (signature, kind, shift, grid mode) once, shapes rotating; thorough: x shapes
+        reps = ctx.pick(1, len(shapes))
+        for rep in range(reps):
+            for si, ps in enumerate(sigs):
+                bad_def = {}
+                for kind in CALLABLE_KINDS:
+                    for shift in (False, True):
+                        for mi, mode in enumerate(GRID_MODES):
+                            k += 1
+                            if not ctx.mine(si + rep):       # one signature stays on one shard (the def form is the yardstick)
+                                continue
+                            shape = shapes[(si + 3 * mi + rep) % len(shapes)] if reps == 1 else shapes[(rep + si) % len(shapes)]
+                            sub = ctx.subseed(rng)
+                            r = np.random.default_rng(sub)
+                            dx = [1.0, 0.25, 3.7][(si + mi) % 3]
+                            oc = order_class(ps)
+                            desc = {'wl': 'form-callable', 'params': list(ps), 'kind': kind, 'shift': shift, 'grid': mode, 'dx': dx,
+                                    'shape': shape, 'seed': sub, 'class': f'form:callable:{kind}:{len(ps)}-params:{oc}:shift={shift}:{mode}'}
+                            ctx.case(desc)
+                            with ctx.guard(f'C15/atf/form:tf=callable/{oc}/kind={kind}', desc):
+                                ok = _form_callable(ctx, atf, r, shape, ps, kind, shift, mode, dx, desc, bad_def)
+                                if kind == 'def' and not ok:
+                                    bad_def[(shift, mode)] = True
+        # ---- E2: dtype kinds of conv operands (all ordered pairs), of atf object x transfer function, of the PSF of mtf/otf/ptf
+        pairs = [(a, b) for a in DT_ALL for b in DT_ALL]
+        for si, shape in enumerate(shapes[: ctx.pick(3, len(shapes))]):
+            for (da, db) in pairs:
+                k += 1
+                if not ctx.mine(k):
+                    continue
+                sub = ctx.subseed(rng)
+                r = np.random.default_rng(sub)
+                desc = {'wl': 'form-conv-dtype', 'shape': shape, 'obj': da, 'psf': db, 'seed': sub,
+                        'class': f'form:conv:dtype:{da}+{db}'}
+                ctx.case(desc)
+                with ctx.guard(f'C15/conv/form:dtype={dkind(da)}+{dkind(db)}', desc):
+                    _form_conv_dtype(ctx, conv, r, shape, da, db, desc)
+            for da in DT_ALL:
+                for tk in ('callable', 'float64', 'complex128', 'float32', 'complex64', 'int64', 'uint8', 'bool'):
+                    k += 1
+                    if not ctx.mine(k):
+                        continue
+                    sub = ctx.subseed(rng)
+                    r = np.random.default_rng(sub)
+                    shift = bool(k % 2)
+                    desc = {'wl': 'form-atf-dtype', 'shape': shape, 'obj': da, 'tf': tk, 'shift': shift, 'seed': sub,
+                            'class': f'form:atf:dtype:{da}+{tk}:shift={shift}'}
+                    ctx.case(desc)
+                    with ctx.guard(f'C15/atf/form:dtype={dkind(da)}+tf:{dkind(tk)}', desc):
+                        _form_atf_dtype(ctx, atf, r, shape, da, tk, shift, desc)
+                for container in ('array', 'RichData'):
+                    k += 1
+                    if not ctx.mine(k):
+                        continue
+                    sub = ctx.subseed(rng)
+                    r = np.random.default_rng(sub)
+                    desc = {'wl': 'form-otf-dtype', 'shape': shape, 'psf': da, 'input': container, 'seed': sub,
+                            'class': f'form:otf:dtype:{da}:{container}'}
+                    ctx.case(desc)
+                    with ctx.guard(f'C15/otf/form:dtype={dkind(da)}/{container}', desc):
+                        _form_otf_dtype(ctx, otf, RichData, r, shape, da, container, desc)
+        # ---- E3: dx forms, explicit grid forms, call syntax, tfs containers
+        for si, shape in enumerate(shapes[: ctx.pick(4, len(shapes))]):
+            for shift in (False, True):
+                k += 1
+                if not ctx.mine(k):
+                    continue
+                sub = ctx.subseed(rng)
+                r = np.random.default_rng(sub)
+                desc = {'wl': 'form-args', 'shape': shape, 'shift': shift, 'seed': sub, 'class': f'form:args:shift={shift}'}
+                ctx.case(desc)
+                _form_args(ctx, atf, conv, otf, RichData, r, shape, shift, desc)
+
+
+def _form_callable(ctx, atf, r, shape, ps, kind, shift, mode, dx, desc, bad_def, by_kind=True):
+    G = asym_functions(r, dx)
+    c, gain = make_callable(kind, ps, G)
+    o = r.standard_normal(shape)
+    gk = _grids_for(mode, shape, dx, shift)
+    arr = array_of(ps, G, gain, shape, dx, shift)
+    a1 = atf(o, dx, [c], shift=shift, **gk)
+    a2 = atf(o, dx, [arr], shift=shift)
+    sc = max(float(np.abs(a2).max()), float(np.abs(o).max()) * 1e-3, 1e-300)
+    ctx.observe('form.callable-signature')
+    ctx.observe('atf.callable-vs-array')
+    oc = order_class(ps)
+    if np.shape(a1) == shape and close(np.asarray(a1), np.asarray(a2), RT, sc):
+        return True
+    # one defect, one key: the plain function decides the signature-order key; another python form is keyed by its kind only
+    # when the plain function with the same parameter list was right
+    if kind == 'def' or not bad_def.get((shift, mode)):
+        which = f'params={oc}' if kind == 'def' or not by_kind else f'kind={kind}/params={oc}'
+        ctx.violation(f'C15/atf/form:tf=callable/{which}',
+                      'a callable transfer function whose parameters are ' + ('not ' if oc != 'canonical-order' else '') +
+                      'declared in the order fx, fy, fr, ft gives a different image than the array it evaluates to (by parameter '
+                      'name) on the documented grid', desc, got_shape=list(np.shape(a1)),
+                      err=float(np.abs(np.asarray(a1) - np.asarray(a2)).max()) if np.shape(a1) == shape else 'shape', scale=sc)
+    return False
+
+
+def _form_conv_dtype(ctx, conv, r, shape, da, db, desc):
+    cast = [cast_img, cast_full][int(r.integers(2))]
+    desc['range'] = 'small' if cast is cast_img else 'full-range'
+    a = cast(r.standard_normal(shape), da)
+    cls = ['rand-nonneg', 'delta-anywhere', 'double-delta'][int(r.integers(3))]
+    h, info = make_psf(cls, shape, r)
+    h = cast(h, db) if 'k' not in info else h.astype(db)
+    if not h.any():
+        h.flat[0] = 1
+    af, hf = a.astype(float), h.astype(float)
+    got = conv(a, h)
+    canon = conv(af, hf)
+    rt = rtol_for(a, h)
+    scale = max(float(np.abs(af).sum()) * float(np.abs(hf).max()), 1e-300)
+    key = f'C15/conv/form:dtype={dkind(da)}+{dkind(db)}'
+    _law(ctx, 'form.conv-dtype', np.asarray(got, dtype=float), canon, key,
+         f'conv of a {da} object with a {db} PSF differs from conv of the same values stored as float64', desc, rt, scale)
+    ic = conv(h, a)
+    _law(ctx, 'conv.commutativity', np.asarray(ic, dtype=float), np.asarray(got, dtype=float), key + '/commutativity',
+         'conv(a,h) != conv(h,a) for operands of these dtypes', desc, rt, scale)
+    _law(ctx, 'conv.energy', float(np.asarray(got, dtype=float).sum()), float(af.sum() * hf.sum()), key + '/energy',
+         'sum(conv(a,h)) != sum(a) sum(h) for operands of these dtypes', desc, rt, max(float(np.abs(af).sum() * np.abs(hf).sum()), 1e-300))
+    if 'k' in info:
+        k0, k1 = info['k']
+        which = 'impulse-identity' if (k0, k1) == (0, 0) else 'impulse-translation'
+        _law(ctx, f'conv.{which}', np.asarray(got, dtype=float), np.roll(af, (k0, k1), axis=(0, 1)), key + f'/{which}',
+             'conv(a, unit impulse at origin+k) != roll(a, k) for operands of these dtypes', desc, rt, max(float(np.abs(af).max()), 1e-300))
+
+
+def _form_atf_dtype(ctx, atf, r, shape, da, tk, shift, desc):
+    cast = [cast_img, cast_full][int(r.integers(2))]
+    desc['range'] = 'small' if cast is cast_img else 'full-range'
+    o = cast(r.standard_normal(shape), da)
+    of = o.astype(float)
+    dx = 0.6
+    if tk == 'callable':
+        G = asym_functions(r, dx)
+        ps = [('fy', 'fx'), ('fx', 'fy'), ('ft', 'fr'), ('fr',)][int(r.integers(4))]
+        c, gain = make_callable('def', ps, G)
+        tfs, tfc = [c], [c]
+    else:
+        if tk.startswith('complex'):
+            t = herm_random(shape, r, shift).astype(tk)
+        elif tk.startswith('float'):
+            t = even_real(shape, r, shift).astype(tk)
+        elif tk == 'bool':
+            t = even_real(shape, r, shift) > 0.5
+        else:
+            t = np.round(even_real(shape, r, shift) * 5).astype(tk)
+        tfs, tfc = [t], [np.array(t, dtype=complex)]
+    got = atf(o, dx, tfs, shift=shift)
+    canon = atf(of, dx, tfc, shift=shift)
+    rt = rtol_for(o, *[t for t in tfs if not callable(t)])
+    sc = max(float(np.abs(canon).max()), float(np.abs(of).max()) * 1e-3, 1e-300)
+    _law(ctx, 'form.atf-dtype', np.asarray(got, dtype=float), canon, f'C15/atf/form:dtype={dkind(da)}+tf:{dkind(tk)}',
+         f'apply_transfer_functions of a {da} object with a {tk} transfer function differs from the same values as float64 / '
+         'complex128', desc, rt, sc)
+    one = atf(o, dx, [np.ones(shape, dtype=tk if tk != 'callable' else float)], shift=shift)
+    _identity_law(ctx, np.asarray(one, dtype=float), of, shift, desc, f'the all-ones transfer function ({tk}) does not return the {da} object', rt)
+
+
+def _form_otf_dtype(ctx, otf, RichData, r, shape, da, container, desc):
+    cls = ['rand-nonneg', 'gauss-offcentre', 'double-delta', 'delta-anywhere'][int(r.integers(4))]
+    p, _ = make_psf(cls, shape, r)
+    cast = [cast_img, cast_full][int(r.integers(2))]
+    desc['range'] = 'small' if cast is cast_img else 'full-range'
+    p = cast(p, da) if da != 'float64' else p
+    if float(p.astype(float).sum()) == 0.0:
+        p.flat[p.size // 2] = 1
+    pf = p.astype(float)
+    dx = 1.7
+    arg = (RichData(p.copy(), dx, None),) if container == 'RichData' else (p.copy(), dx)
+    rt = rtol_for(p)
+    key = f'C15/otf/form:dtype={dkind(da)}/{container}'
+    m = np.asarray(otf.mtf_from_psf(*arg).data)
+    O = np.asarray(otf.otf_from_psf(*arg).data)
+    ph = np.asarray(otf.ptf_from_psf(*arg).data)
+    mc = np.asarray(otf.mtf_from_psf(pf, dx).data)
+    Oc = np.asarray(otf.otf_from_psf(pf, dx).data)
+    _law(ctx, 'form.otf-dtype', m, mc, key, f'mtf_from_psf of a {da} PSF differs from the MTF of the same values as float64', desc, rt, 1.0)
+    _law(ctx, 'form.otf-dtype', O, Oc, key, f'otf_from_psf of a {da} PSF differs from the OTF of the same values as float64', desc, rt, 1.0)
+    if ph.shape == Oc.shape:
+        _law(ctx, 'form.otf-dtype', np.abs(Oc) * np.exp(1j * ph), Oc, key,
+             f'ptf_from_psf of a {da} PSF differs from the phase of the OTF of the same values as float64', desc, max(rt, 1e-9), 1.0)
+    else:
+        ctx.violation(key + '/shape', 'ptf_from_psf has the wrong shape', desc)
+    _mtf_validity(ctx, m, O, ph, shape, desc, rt != RT)
+
+
+def _form_args(ctx, atf, conv, otf, RichData, r, shape, shift, desc):
+    o = r.standard_normal(shape)
+    omax = float(np.abs(o).max())
+    # ---- dx forms (dx matters only for callables).  Integral dx for the integer forms
+    for form in DX_FORMS:
+        dxv = 2.0 if 'int' in form else 0.5
+        G = asym_functions(r, dxv)
+        ps = [('fy', 'fx'), ('fx', 'fy', 'fr', 'ft'), ('ft', 'fr', 'fy')][int(r.integers(3))]
+        c, gain = make_callable('def', ps, G)
+        d = dict(desc, dx_form=form, params=list(ps))
+        with ctx.guard(f'C15/atf/form:dx={form}', d):
+            got = atf(o, dx_form(form, dxv), [c], shift=shift)
+            canon = atf(o, float(dxv), [c], shift=shift)
+            arr = atf(o, None, [array_of(ps, G, gain, shape, dxv, shift)], shift=shift)
+            sc = max(float(np.abs(arr).max()), omax * 1e-3, 1e-300)
+            rt = 2e-4 if 'float32' in form else RT
+            _law(ctx, 'form.dx', got, canon, f'C15/atf/form:dx={form}', f'apply_transfer_functions with dx given as {form} differs '
+                 'from dx given as a python float of the same value', d, rt, sc)
+            _law(ctx, 'form.dx', canon, arr, f'C15/atf/form:tf=callable/params={order_class(ps)}', 'a callable transfer function '
+                 'gives a different image than the array it evaluates to (by parameter name) on the documented grid', d, RT, sc)
+        p = r.random(shape) + 0.01
+        with ctx.guard(f'C15/otf/form:dx={form}', d):
+            for w, f in (('mtf', otf.mtf_from_psf), ('otf', otf.otf_from_psf)):
+                got = np.asarray(f(p, dx_form(form, dxv)).data)
+                canon = np.asarray(f(p, float(dxv)).data)
+                viac = np.asarray(f(RichData(p.copy(), dx_form(form, dxv), None)).data)
+                _law(ctx, 'form.dx', got, canon, f'C15/{w}/form:dx={form}', f'{w}_from_psf with dx given as {form} differs from dx given '
+                     'as a python float', d, RT, 1.0)
+                _law(ctx, 'form.dx', viac, canon, f'C15/{w}/form:dx={form}/container', f'{w}_from_psf(RichData with dx stored as {form}) '
+                     'differs from the array form with a python float dx', d, RT, 1.0)
+    # ---- explicit grid forms
+    dxv = [1.0, 0.25, 3.7][int(r.integers(3))]
+    for form in GRID_FORMS:
+        G = asym_functions(r, dxv)
+        ps = [('fy', 'fx'), ('ft', 'fr'), ('fr', 'fx', 'ft', 'fy'), ('fx', 'fy'), ('fr', 'ft')][int(r.integers(5))]
+        c, gain = make_callable(['def', 'callable-object', 'partial-keyword'][int(r.integers(3))], ps, G)
+        d = dict(desc, grid_form=form, params=list(ps), dx=dxv)
+        with ctx.guard(f'C15/atf/form:fx,fy={form}', d):
+            gx, gy = grid_form(form, shape, dxv, shift)
+            keep = (np.array(gx), np.array(gy))
+            got = atf(o, None, [c], fx=gx, fy=gy, shift=shift)
+            pos = atf(o, dxv * 3.0, [c], gx, gy, None, None, shift)          # positional form; dx is documented as ignored here
+            canon = atf(o, dxv, [c], shift=shift)
+            arr = atf(o, None, [array_of(ps, G, gain, shape, dxv, shift)], shift=shift)
+            sc = max(float(np.abs(arr).max()), omax * 1e-3, 1e-300)
+            rt = 2e-4 if 'float32' in form else RT
+            key = f'C15/atf/form:fx,fy={form}'
+            _law(ctx, 'form.grid', got, canon, key, f'apply_transfer_functions with the documented frequency grid passed explicitly '
+                 f'({form}) differs from the grid built from dx', d, rt, sc)
+            _law(ctx, 'form.grid', canon, arr, f'C15/atf/form:tf=callable/params={order_class(ps)}', 'a callable transfer function '
+                 'gives a different image than the array it evaluates to (by parameter name) on the documented grid', d, RT, sc)
+            _law(ctx, 'form.call-syntax', pos, got, key + '/positional', 'fx, fy, ft, fr, shift passed positionally give a different '
+                 'image than passed by keyword', d, rt, sc)
+            ctx.require('form.grid', np.array_equal(keep[0], gx) and np.array_equal(keep[1], gy), key + '/grid-arrays-modified',
+                        'apply_transfer_functions modified the caller\'s fx / fy arrays', d)
+            again = atf(o, None, [c], fx=gx, fy=gy, shift=shift)
+            _law(ctx, 'form.grid', again, canon, key + '/second-use', f'second call with the same explicit grid arrays ({form}) '
+                 'differs from the grid built from dx', d, rt, sc)
+    # ---- call syntax: keyword vs positional, omitted vs explicit default (also after a call with the other value)
+    dxv = 0.8
+    G = asym_functions(r, dxv)
+    c, gain = make_callable('lambda', ('fy', 'fr', 'fx'), G)
+    T = [herm_random(shape, r, shift), even_real(shape, r, shift)]
+    d = dict(desc, what='call-syntax')
+    with ctx.guard('C15/atf/form:call-syntax', d):
+        for tfs, label in (([c], 'callable'), (T, 'arrays'), ([c] + T, 'mixed')):
+            ref_ = atf(o, dxv, tfs, shift=shift)
+            sc = max(float(np.abs(ref_).max()), omax * 1e-3, 1e-300)
+            kw = atf(obj=o, dx=dxv, tfs=tfs, fx=None, fy=None, ft=None, fr=None, shift=shift)
+            _law(ctx, 'form.call-syntax', kw, ref_, f'C15/atf/form:call=all-keywords/{label}',
+                 'apply_transfer_functions called with every argument by keyword (defaults explicit) differs from the usual call', d, RT, sc)
+            ps_ = atf(o, dxv, tfs, None, None, None, None, shift)
+            _law(ctx, 'form.call-syntax', ps_, ref_, f'C15/atf/form:call=all-positional/{label}',
+                 'apply_transfer_functions called with every argument positionally differs from the usual call', d, RT, sc)
+            # omitted shift == shift=False, also right after a shift=True call
+            atf(o, dxv, tfs, shift=True)
+            om = atf(o, dxv, tfs)
+            ex = atf(o, dxv, tfs, shift=False)
+            sc2 = max(float(np.abs(ex).max()), omax * 1e-3, 1e-300)
+            _law(ctx, 'form.call-syntax', om, ex, f'C15/atf/form:shift=omitted/{label}',
+                 'apply_transfer_functions without shift= differs from shift=False (the documented default) after a shift=True call',
+                 d, RT, sc2)
+            for cont in TFS_CONTAINERS:
+                cc = list(tfs) if cont == 'list' else tuple(tfs)
+                out = atf(o, dxv, cc, shift=shift)
+                _law(ctx, 'form.call-syntax', out, ref_, f'C15/atf/form:tfs={cont}/{label}',
+                     f'transfer functions passed as a {cont} give a different image than as a list', d, RT, sc)
+    h = r.random(shape)
+    with ctx.guard('C15/conv/form:call-syntax', d):
+        i1 = conv(o, h)
+        sc = max(float(np.abs(o).sum()) * float(h.max()), 1e-300)
+        _law(ctx, 'form.call-syntax', conv(obj=o, psf=h), i1, 'C15/conv/form:call=keywords', 'conv(obj=, psf=) != conv(obj, psf)', d, RT, sc)
+        _law(ctx, 'form.call-syntax', conv(psf=h, obj=o), i1, 'C15/conv/form:call=keywords', 'conv(psf=, obj=) != conv(obj, psf)', d, RT, sc)
+    with ctx.guard('C15/otf/form:call-syntax', d):
+        for w, f in (('mtf', otf.mtf_from_psf), ('otf', otf.otf_from_psf)):
+            a0 = np.asarray(f(h, 1.3).data)
+            _law(ctx, 'form.call-syntax', np.asarray(f(psf=h, dx=1.3).data), a0, f'C15/{w}/form:call=keywords',
+                 f'{w}_from_psf(psf=, dx=) != {w}_from_psf(psf, dx)', d, RT, 1.0)
+            _law(ctx, 'form.call-syntax', np.asarray(f(RichData(h.copy(), 1.3, None), None).data), a0, f'C15/{w}/form:call=container+dx=None',
+                 f'{w}_from_psf(container, None) != {w}_from_psf(container.data, container.dx)', d, RT, 1.0)
+            _law(ctx, 'form.call-syntax', np.asarray(f(psf=RichData(h.copy(), 1.3, None)).data), a0, f'C15/{w}/form:call=container-keyword',
+                 f'{w}_from_psf(psf=container) != {w}_from_psf(container.data, container.dx)', d, RT, 1.0)
+
+
+# ------------------------------------------------------------------------------------------- class F: foreign traffic
+def _run_foreign(ctx):
+    """Other public consumers of the helpers apply_transfer_functions builds its grids with (forward_ft_unit,
+    optimize_xy_separable, cart_to_polar; make_xy_grid for the RichData containers) run first with hostile arguments, on
+    the same (dx, n); grids they hand back are edited in place (the caller owns what it was handed).  Then the callable
+    workload is judged as usual."""
+    from prysm import coordinates, fttools, geometry, otf
+    from prysm._richdata import RichData
+    from prysm.convolution import apply_transfer_functions as atf, conv
+    rng = ctx.rng('c15-foreign')
+    shapes = [(5, 8), (8, 8), (7, 6), (9, 9), (16, 12)]
+    for _ in range(ctx.pick(0, 60)):
+        shapes.append((int(rng.integers(2, 33)), int(rng.integers(2, 33))))
+    sigs = signatures()
+    k = -1
+    for shape in shapes:
+        for hostile in ('helpers-edited-in-place', 'precision-32-consumers', 'other-consumers'):
+            k += 1
+            if not ctx.mine(k):
+                continue
+            sub = ctx.subseed(rng)
+            r = np.random.default_rng(sub)
+            dx = 0.43 + 0.01 * (k % 7)                 # samplings no other workload uses
+            desc = {'wl': 'foreign', 'shape': shape, 'prelude': hostile, 'dx': dx, 'seed': sub, 'class': f'foreign:{hostile}'}
+            ctx.case(desc)
+            ctx.observe('foreign.cases')
+            try:
+                _foreign_prelude(hostile, shape, dx, r, coordinates, fttools, geometry, otf, RichData)
+            except Exception as e:       # the prelude is not what is judged
+                ctx.skip(f'foreign prelude raised {type(e).__name__}')
+            tctx = Tagged(ctx, f'/after-foreign:{hostile}')
+            with driving(tctx, wl='foreign:' + hostile):
+                for shift in (False, True):
+                    for j in range(ctx.pick(3, 8)):
+                        ps = sigs[int(r.integers(len(sigs)))]
+                        kind = CALLABLE_KINDS[int(r.integers(len(CALLABLE_KINDS)))]
+                        d2 = dict(desc, shift=shift, params=list(ps), kind=kind)
+                        with tctx.guard(f'C15/atf/form:tf=callable/{order_class(ps)}/kind={kind}', d2):
+                            _form_callable(tctx, atf, r, shape, ps, kind, shift, 'dx', dx, d2, {}, by_kind=False)
+                    for cls in ('prysm-fts', 'linear-phase-callable', 'ones-callable'):
+                        d2 = dict(desc, shift=shift, tf=cls)
+                        with tctx.guard(f'C15/atf/shift={shift}/{cls}', d2):
+                            _atf_case(tctx, atf, r, shape, cls, shift, 'dx', dx, d2)
+                with tctx.guard(f'C15/otf/{par2(shape)}', desc):
+                    _otf_laws(tctx, otf, r, shape, 'rand-nonneg', 'RichData', dx, desc)
+                with tctx.guard(f'C15/conv/{par2(shape)}', desc):
+                    _conv_laws(tctx, conv, r, shape, 'delta-anywhere', desc)
+
+
+def _foreign_prelude(hostile, shape, dx, r, coordinates, fttools, geometry, otf, RichData):
+    n0, n1 = shape
+    if hostile == 'helpers-edited-in-place':
+        for n in (n0, n1):
+            for shift in (True, False):
+                u = fttools.forward_ft_unit(dx, n, shift=shift)
+                u *= 0.0
+                u += 7.0
+                u = fttools.forward_ft_unit(dx, n, shift)
+                u[...] = -1.0
+        x, y = coordinates.make_xy_grid(shape, dx=dx)
+        x[...] = 5.0
+        y[...] = -5.0
+        x, y = coordinates.make_xy_grid((n1, n0), dx=dx, grid=False)
+        x[...] = 5.0
+        y[...] = -5.0
+        fy, fx = [fttools.forward_ft_unit(dx, n, shift=False) for n in shape]
+        X, Y = coordinates.optimize_xy_separable(fx, fy)
+        X[...] = 1.0
+        Y[...] = 2.0
+        fr, ft = coordinates.cart_to_polar(X, Y, vec_to_grid=False)
+        fr[...] = 0.0
+        ft[...] = 0.0
+    elif hostile == 'precision-32-consumers':
+        with precision(32):
+            for n in (n0, n1):
+                for shift in (True, False):
+                    fttools.forward_ft_unit(dx, n, shift=shift)
+                    fttools.forward_ft_unit(np.float32(dx), n, shift=shift)
+            x, y = coordinates.make_xy_grid(shape, dx=dx)
+            rr, tt = coordinates.cart_to_polar(x, y)
+            geometry.circle(dx * min(shape) / 3, rr)
+            c = RichData(r.random(shape).astype(np.float32), dx, None)
+            c.x, c.y, c.r, c.t
+            otf.mtf_from_psf(c)
+            c.exact_xy(np.array([0.0]), np.array([0.0]))
+    else:
+        from prysm import fttools as ft_
+        a = r.random(shape)
+        ft_.pad2d(a, Q=2)
+        c = RichData(a.copy(), dx, 0.5)
+        c.x, c.y, c.r, c.t
+        c.x[...] = 3.0
+        c.slices().x
+        geometry.rectangle(dx * 2, *coordinates.make_xy_grid(shape, dx=dx))
+        x, y = coordinates.make_xy_grid(shape, dx=dx, grid=False)
+        geometry.rectangle(dx * 2, x, y, angle=30)
+        try:
+            from prysm.x.dm import DM
+            yy, xx = np.mgrid[:n0, :n0] - n0 // 2
+            DM(np.exp(-(xx * xx + yy * yy) / 6.0), Nout=n0, Nact=3, sep=max(n0 // 4, 1)).render(wfe=False)
+        except Exception:
+            pass
+        try:
+            from prysm.interferogram import psd
+            psd(r.random((n1, n1)), dx)
+        except Exception:
+            pass
 
 
 def _run_rejections(ctx):
